@@ -1592,6 +1592,13 @@ class AllConnGraph(nx.DiGraph):
                 else:
                     tgt_meta.val = srcval
 
+                src_units = src_meta.units
+                tgt_units = tgt_meta.units
+                if src_units is not None and tgt_units is not None and src_units != tgt_units \
+                        and tgt_meta.val is not None:
+                    scale, offset = unit_conversion(src_units, tgt_units)
+                    tgt_meta.val = (np.asarray(tgt_meta.val) + offset) * scale
+
             if has_vecs:
                 if tgt_meta.discrete:
                     pass
